@@ -22,7 +22,7 @@ tvars == <<vars, tix, l, tran>>
 TProg(i) == {Traces[i].prog[k] : k \in 1..Len(Traces[i].prog)}
 
 Init == /\ TraceInitBase
-        /\ WellFormed(TProg(tix))
+        /\ WellFormed(TProg(tix)) = TRUE      \* (as a value: TLC must not unfold the quantifiers as an initial predicate)
         /\ InitFor(TProg(tix))
         /\ tran = 0
 
